@@ -3,7 +3,10 @@
 //! Case lines (see /verif/lean/YashModel/Arith/Main.lean):
 //!   `E <env> <text> [<tree>]`  env = `-` or `name:value,…` (hex), text hex, tree in Polish notation
 //!   `U <text>`                 totality only (text with non-ASCII alphanumerics: outside the model)
-//! Observation: `ok <value> <sorted final env>` | `error` | `PANIC(..)`; for `U`: `total` | `PANIC(..)`.
+//!   `S <opts> <globals> <kind> <locals> <exprs>`  shell-level scenario: arithmetic expansions run by the
+//!                              whole shell at top level / in functions (with `typeset` locals) / in subshells
+//! Observation: `ok <value> <sorted final env>` | `error` | `PANIC(..)`; for `U`: `total` | `PANIC(..)`;
+//! for `S`: the output lines joined by `|`, then `END <final global variables>` or `ERR` (shell exited).
 //! Oracle (independent of the Lean model): for a case with a tree, the tree is evaluated here in exact
 //! `i128` arithmetic by the C rules (error when a result does not fit i64 or is undefined) and compared
 //! with what the real code returned (`-` when C leaves the tree undefined: unsequenced side effects, a
@@ -811,11 +814,413 @@ impl Out {
     }
 }
 
+
+// ------------------------------------------------------------------------------------------
+// shell-level leg: the glue between yash-arith and the shell's variable store
+// (yash-semantics/src/expansion/initial/arith.rs: VarEnv::get_variable / assign_variable, expand)
+
+const UNIVERSE: [&str; 7] = ["a", "b", "n", "q", "r", "v", "x"];
+
+#[derive(Clone, Debug, PartialEq)]
+enum SV {
+    /// scalar
+    S(String),
+    /// read-only scalar
+    R(String),
+    /// array
+    A(Vec<String>),
+    /// declared without a value (`typeset name`)
+    N,
+}
+
+#[derive(Clone, Debug)]
+struct Scen {
+    nounset: bool,
+    globals: Vec<(String, SV)>,
+    kind: String,
+    locals: Vec<(String, SV)>,
+    exprs: Vec<String>,
+}
+
+fn enc_vars(vs: &[(String, SV)]) -> String {
+    if vs.is_empty() {
+        return "-".into();
+    }
+    vs.iter()
+        .map(|(n, v)| match v {
+            SV::S(x) => format!("{n}=s:{}", enc_str(x)),
+            SV::R(x) => format!("{n}=r:{}", enc_str(x)),
+            SV::A(l) => format!("{n}=a:{}", l.iter().map(|e| enc_str(e)).collect::<Vec<_>>().join(".")),
+            SV::N => format!("{n}=n:-"),
+        })
+        .collect::<Vec<_>>()
+        .join(",")
+}
+
+fn dec_vars(t: &str) -> Option<Vec<(String, SV)>> {
+    if t == "-" {
+        return Some(vec![]);
+    }
+    t.split(',')
+        .map(|item| {
+            let (n, kp) = item.split_once('=')?;
+            let (k, p) = kp.split_once(':')?;
+            let v = match k {
+                "s" => SV::S(dec_str(p)?),
+                "r" => SV::R(dec_str(p)?),
+                "a" => SV::A(p.split('.').map(dec_str).collect::<Option<Vec<_>>>()?),
+                "n" => SV::N,
+                _ => return None,
+            };
+            Some((n.to_string(), v))
+        })
+        .collect()
+}
+
+fn scen_line(sc: &Scen) -> String {
+    format!(
+        "S {} {} {} {} {}",
+        if sc.nounset { "u" } else { "-" },
+        enc_vars(&sc.globals),
+        sc.kind,
+        enc_vars(&sc.locals),
+        sc.exprs.iter().map(|e| enc_str(e)).collect::<Vec<_>>().join(",")
+    )
+}
+
+fn parse_scen(line: &str) -> Option<Scen> {
+    let w: Vec<&str> = line.split_whitespace().collect();
+    let ["S", opts, g, kind, l, es] = w.as_slice() else { return None };
+    if !matches!(*kind, "top" | "fn" | "sub" | "fnsub" | "nest") || !matches!(*opts, "-" | "u") {
+        return None;
+    }
+    Some(Scen {
+        nounset: *opts == "u",
+        globals: dec_vars(g)?,
+        kind: kind.to_string(),
+        locals: dec_vars(l)?,
+        exprs: es.split(',').map(dec_str).collect::<Option<Vec<_>>>()?,
+    })
+}
+
+fn plain_word(s: &str) -> bool {
+    s.chars().all(|c| c.is_ascii_alphanumeric() || " +-_".contains(c))
+}
+
+/// the script of a scenario; None = not expressible (only hand-written replay lines can be)
+fn render_scen(sc: &Scen) -> Option<String> {
+    let mut out = String::new();
+    if sc.nounset {
+        out.push_str("set -u\n");
+    }
+    for (n, v) in &sc.globals {
+        if !is_name(n) {
+            return None;
+        }
+        match v {
+            SV::S(x) if plain_word(x) => out.push_str(&format!("{n}='{x}'\n")),
+            SV::R(x) if plain_word(x) => out.push_str(&format!("readonly {n}='{x}'\n")),
+            SV::A(l) if !l.is_empty() && l.iter().all(|e| !e.is_empty() && e.chars().all(|c| c.is_ascii_alphanumeric())) => {
+                out.push_str(&format!("{n}=({})\n", l.join(" ")))
+            }
+            _ => return None,
+        }
+    }
+    let mut locals = String::new();
+    for (n, v) in &sc.locals {
+        if !is_name(n) {
+            return None;
+        }
+        match v {
+            SV::S(x) if plain_word(x) => locals.push_str(&format!("typeset {n}='{x}'\n")),
+            SV::R(x) if plain_word(x) => locals.push_str(&format!("typeset -r {n}='{x}'\n")),
+            SV::N => locals.push_str(&format!("typeset {n}\n")),
+            _ => return None,
+        }
+    }
+    let mut body = String::new();
+    for (i, e) in sc.exprs.iter().enumerate() {
+        // what may stand between `$((` and `))` without changing how the shell reads the script
+        let ok = e.chars().all(|c| c.is_ascii_alphanumeric() || " _+-*/%<>=!&|^~?:(){}$".contains(c));
+        let mut d = 0i32;
+        for c in e.chars() {
+            match c {
+                '(' => d += 1,
+                ')' => {
+                    d -= 1;
+                    if d < 0 {
+                        return None;
+                    }
+                }
+                _ => {}
+            }
+        }
+        if !ok || d != 0 || !e.starts_with(' ') || !e.ends_with(' ') {
+            return None;
+        }
+        if i % 2 == 0 {
+            body.push_str(&format!("probe \"$(({e}))\"\n"));
+        } else {
+            body.push_str(&format!("probe $(({e}))\n"));
+        }
+    }
+    let print: String = UNIVERSE.iter().map(|n| format!("probe \"${{{n}-U}}\"\n")).collect();
+    match sc.kind.as_str() {
+        "top" => out.push_str(&format!("{body}{print}")),
+        "fn" => out.push_str(&format!("f() {{\n{locals}{body}{print}}}\nf\n{print}")),
+        "sub" => out.push_str(&format!("(\n{body}{print})\n{print}")),
+        "fnsub" => out.push_str(&format!("f() {{\n{locals}(\n{body}{print})\n{print}}}\nf\n{print}")),
+        "nest" => out.push_str(&format!("g() {{\n{body}{print}}}\nf() {{\n{locals}g\n{print}}}\nf\n{print}")),
+        _ => return None,
+    }
+    out.push_str("probe DONE\n");
+    Some(out)
+}
+
+fn run_scen(sc: &Scen) -> String {
+    let Some(script) = render_scen(sc) else { return "bad-case".into() };
+    guarded(|| {
+        let (o, fin) = yverif::shell::run_with(
+            yverif::shell::Config::new(&script),
+            |_, _| (),
+            |env, _| {
+                let mut items = vec![];
+                for n in UNIVERSE {
+                    if let Some(v) = env.variables.get(n) {
+                        let ro = v.is_read_only();
+                        let t = match &v.value {
+                            Some(yash_env::variable::Value::Scalar(x)) => format!("{}:{}", if ro { "r" } else { "s" }, enc_str(x)),
+                            Some(yash_env::variable::Value::Array(l)) => {
+                                format!("{}:{}", if ro { "A" } else { "a" }, l.iter().map(|e| enc_str(e)).collect::<Vec<_>>().join("."))
+                            }
+                            None => format!("{}:-", if ro { "N" } else { "n" }),
+                        };
+                        items.push(format!("{n}={t}"));
+                    }
+                }
+                if items.is_empty() { "-".to_string() } else { items.join(",") }
+            },
+        );
+        if o.stuck {
+            return "TIMEOUT".into();
+        }
+        let out = o.stdout_str();
+        let mut lines: Vec<String> = out.lines().map(|l| l.split_once(':').map(|x| x.1).unwrap_or(l).to_string()).collect();
+        let done = lines.last().map(|l| l == &enc_str("DONE")).unwrap_or(false);
+        if done {
+            lines.pop();
+            lines.push(format!("END {}", fin.unwrap_or_else(|| "?".into())));
+        } else {
+            lines.push("ERR".into());
+        }
+        lines.join("|")
+    })
+}
+
+/// the property clause evaluated on the observation itself: an assignment made inside a function that has
+/// no local of that name is an assignment to the variable the caller sees — what the function saw at its
+/// end is what every caller level sees after it returned; and nothing done in a subshell is seen outside.
+fn scen_oracle(sc: &Scen, obs: &str) -> String {
+    if obs.starts_with("PANIC") || obs == "TIMEOUT" {
+        return format!("FAIL:{obs}");
+    }
+    let parts: Vec<&str> = obs.split('|').collect();
+    let Some(last) = parts.last() else { return "-".into() };
+    if !last.starts_with("END") {
+        return "-".into();
+    }
+    let u = UNIVERSE.len();
+    let blocks_at = sc.exprs.len();
+    let block = |i: usize| -> Option<&[&str]> { parts.get(blocks_at + i * u..blocks_at + (i + 1) * u) };
+    match sc.kind.as_str() {
+        "fn" | "nest" if sc.locals.is_empty() => {
+            let n = if sc.kind == "fn" { 2 } else { 3 };
+            if parts.len() != blocks_at + n * u + 1 {
+                return "-".into();
+            }
+            for i in 1..n {
+                if block(i) != block(0) {
+                    return format!("FAIL:variables-after-return-differ-from-what-the-function-left(level {i})");
+                }
+            }
+            "ok".into()
+        }
+        "sub" => {
+            // the last block is printed by the parent: it must show the initial globals
+            let n = (parts.len() - 1 - blocks_at.min(parts.len() - 1)) / u;
+            let _ = n;
+            let want: Vec<String> = UNIVERSE
+                .iter()
+                .map(|name| match sc.globals.iter().find(|g| g.0 == *name) {
+                    Some((_, SV::S(x))) | Some((_, SV::R(x))) => enc_str(x),
+                    Some((_, SV::A(l))) => l.iter().map(|e| enc_str(e)).collect::<Vec<_>>().join(","),
+                    _ => enc_str("U"),
+                })
+                .collect();
+            let got = &parts[parts.len() - 1 - u..parts.len() - 1];
+            if got.iter().map(|s| s.to_string()).collect::<Vec<_>>() == want { "ok".into() } else { "FAIL:subshell-changed-the-parent".into() }
+        }
+        _ => "-".into(),
+    }
+}
+
+const SVALUES: [&str; 12] = ["5", "0", "1", "-3", "+7", "010", "0x1F", "9223372036854775807", "", "junk", " 1", "08"];
+
+fn random_scen(r: &mut Rng, sh: &[Shape]) -> Scen {
+    let mut globals = vec![];
+    for n in ["b", "n", "v", "x"] {
+        if r.chance(1, 2) {
+            globals.push((n.to_string(), SV::S(r.pick(&SVALUES).to_string())));
+        }
+    }
+    if r.chance(1, 4) {
+        globals.push(("r".to_string(), SV::R(r.pick(&["5", "0", "12"]).to_string())));
+    }
+    if r.chance(1, 6) {
+        globals.push(("a".to_string(), SV::A(vec!["1".into(), "2".into(), "3".into()])));
+    }
+    if r.chance(1, 8) {
+        globals.push(("q".to_string(), SV::S(r.pick(&SVALUES).to_string())));
+    }
+    let kind = r.pick(&["top", "fn", "fn", "sub", "fnsub", "nest", "nest"]).to_string();
+    let mut locals = vec![];
+    if matches!(kind.as_str(), "fn" | "fnsub" | "nest") && r.chance(2, 3) {
+        for n in ["n", "v", "x", "q", "b"] {
+            if r.chance(1, 3) {
+                let v = match r.below(20) {
+                    0..=11 => SV::S(r.pick(&SVALUES).to_string()),
+                    12..=16 => SV::N,
+                    _ => SV::R(r.pick(&["5", "0", "12"]).to_string()),
+                };
+                locals.push((n.to_string(), v));
+            }
+        }
+    }
+    let atoms: Vec<Ex> = {
+        let mut v: Vec<Ex> = [0i64, 1, 2, 3, 7, 10].iter().map(|n| Num(*n, 0)).collect();
+        for x in UNIVERSE {
+            v.push(var(x));
+        }
+        v
+    };
+    let ne = 1 + r.below(3);
+    let mut exprs = vec![];
+    for _ in 0..ne {
+        let t = if r.chance(1, 2) {
+            // an assignment-like operator at the root
+            let lv = var(r.pick(&UNIVERSE));
+            let d = r.below(3);
+            let rhs = shell_tree(r, d, &atoms, sh);
+            match r.below(8) {
+                0 => Pre(r.pick(&["++", "--"]), b(lv)),
+                1 => Post(r.pick(&["++", "--"]), b(lv)),
+                2 | 3 => Bin("=", b(lv), b(rhs)),
+                _ => Bin(BINARY[1 + r.below(10)].0, b(lv), b(rhs)),
+            }
+        } else {
+            let d = 1 + r.below(3);
+            shell_tree(r, d, &atoms, sh)
+        };
+        let mut toks = vec![];
+        let extra = *r.pick(&[0u32, 10]);
+        tokens(&t, &mut toks, extra, r);
+        // `$name` / `${name}` for some variables that are only read
+        for i in 0..toks.len() {
+            let is_var = UNIVERSE.contains(&toks[i].as_str());
+            let next_assigns = toks.get(i + 1).map(|t| (t.ends_with('=') && !matches!(t.as_str(), "==" | "!=" | "<=" | ">=")) || t == "++" || t == "--").unwrap_or(false);
+            let prev_incdec = i > 0 && (toks[i - 1] == "++" || toks[i - 1] == "--");
+            if is_var && !next_assigns && !prev_incdec && r.chance(1, 5) {
+                toks[i] = if r.chance(1, 2) { format!("${}", toks[i]) } else { format!("${{{}}}", toks[i]) };
+            }
+        }
+        let style = r.below(2) as u8;
+        exprs.push(format!(" {} ", join(&toks, style, r)));
+    }
+    Scen { nounset: r.chance(1, 10), globals, kind, locals, exprs }
+}
+
+fn shell_tree(r: &mut Rng, depth: usize, at: &[Ex], sh: &[Shape]) -> Ex {
+    if depth == 0 || r.chance(1, 4) {
+        return r.pick(at).clone();
+    }
+    let s = if r.chance(6, 10) { sh[r.below(29)] } else { sh[29 + r.below(sh.len() - 29)] };
+    let kids = (0..arity(s))
+        .map(|i| if wants_lvalue(s, i) && r.chance(4, 5) { var(r.pick(&UNIVERSE)) } else { shell_tree(r, depth - 1, at, sh) })
+        .collect();
+    build(s, kids)
+}
+
+/// every assignment-like form × every kind of context × the ways the target can be declared
+fn systematic_scens() -> Vec<Scen> {
+    let forms = [
+        " n += 1 ", " v = 3 ", " ++n ", " n-- ", " x = n = 2 ", " r = 1 ", " a += 1 ", " q ? n : (v = 2) ", " n = $b + b ",
+        " (n = 4) + (v = n) ", " b *= ${b} ", " n <<= 2 ",
+    ];
+    let mut out = vec![];
+    for kind in ["top", "fn", "sub", "fnsub", "nest"] {
+        for f in forms {
+            for gset in 0..3 {
+                let mut globals = vec![("r".to_string(), SV::R("5".into())), ("a".to_string(), SV::A(vec!["1".into(), "2".into()]))];
+                if gset >= 1 {
+                    globals.push(("n".to_string(), SV::S("1".into())));
+                    globals.push(("b".to_string(), SV::S("010".into())));
+                }
+                if gset == 2 {
+                    globals.push(("v".to_string(), SV::S("7".into())));
+                    globals.push(("q".to_string(), SV::S("1".into())));
+                }
+                let local_sets: Vec<Vec<(String, SV)>> = if kind == "top" || kind == "sub" {
+                    vec![vec![]]
+                } else {
+                    vec![
+                        vec![],
+                        vec![("n".to_string(), SV::S("10".into()))],
+                        vec![("n".to_string(), SV::N), ("v".to_string(), SV::N)],
+                        vec![("n".to_string(), SV::R("10".into()))],
+                        vec![("v".to_string(), SV::S("20".into())), ("b".to_string(), SV::S("3".into()))],
+                    ]
+                };
+                for locals in local_sets {
+                    for nounset in [false, true] {
+                        if nounset && gset != 1 {
+                            continue;
+                        }
+                        out.push(Scen { nounset, globals: globals.clone(), kind: kind.to_string(), locals: locals.clone(), exprs: vec![f.to_string(), " n + v ".to_string()] });
+                    }
+                }
+            }
+        }
+    }
+    out
+}
+
+fn emit_scen(out: &mut Out, sc: &Scen) {
+    let mine = out.idx % out.shard.1 == out.shard.0;
+    out.idx += 1;
+    if mine {
+        let obs = run_scen(sc);
+        let oracle = scen_oracle(sc, &obs);
+        emit(&scen_line(sc), &obs, &oracle);
+        out.count += 1;
+    }
+}
+
 fn main() {
     quiet_panics();
     let o = Opts::from_args();
     let (fixed, only) = o.fixed_cases();
     for line in &fixed {
+        if line.starts_with("S ") {
+            match parse_scen(line) {
+                Some(sc) => {
+                    let obs = run_scen(&sc);
+                    let oracle = scen_oracle(&sc, &obs);
+                    emit(line, &obs, &oracle);
+                }
+                None => emit(line, "bad-case", "-"),
+            }
+            continue;
+        }
         match parse_case(line) {
             Some(c) => {
                 let (obs, oracle) = run_case(&c, true);
@@ -1065,6 +1470,17 @@ fn main() {
             })
             .collect();
         out.put(make_case(text, &env0, None));
+    }
+    // 7. shell level: the expansions run by the whole shell at top level, in functions (with and without
+    //    `typeset` locals of the same name, read-only ones, ones without value), in subshells, in a function
+    //    called by the function that declared the locals; with read-only and array targets and `set -u`
+    for sc in systematic_scens() {
+        emit_scen(&mut out, &sc);
+    }
+    let nsh = if thorough { 300_000 } else { 6_000 };
+    for _ in 0..nsh {
+        let sc = random_scen(&mut r, &sh);
+        emit_scen(&mut out, &sc);
     }
     eprintln!("c03: {} cases emitted by this shard of {}", out.count, out.idx);
 }
